@@ -1,5 +1,6 @@
 (* C04 commands (codes 4000 + sub): decoding / encoding in Gallina. *)
 From Coq Require Import List ZArith NArith Bool Arith.
+From BS Require Model.EntitySubst.
 From BS Require Import Base.Sexp Base.Types Model.Attrs Model.Heap Model.Edit Model.Build Model.Adapter
                        Spec.Tree Spec.BuildSpec Spec.DocSpec Model.Tokenizer Model.TokParse Spec.DocWrite.
 Import ListNotations.
@@ -195,5 +196,18 @@ Definition disp_c04 (sub : Z) (args : list sexp) : sexp :=
       L [sbool (simple_doc doc); sbool (wf_doc cfg doc); sstr text; slist s_tev (tevs_of doc);
          sbool (negb (rejected (fun v => v) text));
          sbool (ok && snodes_eqb (spec_run (a_b cfg) (events_of o)) (flat (a_b cfg) (expect cfg doc)))]
+  (* (4007 cfg doc) -> the same for the wider sub-grammar Spec.DocWrite.wider_doc (attribute values as WRITTEN, references
+     allowed) with C09's model of html.unescape: wider_doc, wf_doc of the denoted document, write doc, the ideal callbacks of
+     the denoted document, not rejected, the evaluated conclusion of Props.C04 C04_string_tree_wider_partial *)
+  | 7, c :: d :: _ =>
+      let cfg := g_acfg c in
+      let doc := glist g_dnode d in
+      let den := udoc EntitySubst.unescape doc in
+      let text := write doc in
+      let cbs := callbacks EntitySubst.unescape text in
+      let '(o, _, ok) := adapter_run cfg [] cbs in
+      L [sbool (wider_doc doc); sbool (wf_doc cfg den); sstr text; slist s_tev (tevs_of den);
+         sbool (negb (rejected EntitySubst.unescape text));
+         sbool (ok && snodes_eqb (spec_run (a_b cfg) (events_of o)) (flat (a_b cfg) (expect cfg den)))]
   | _, _ => A (-1)
   end.
